@@ -5,7 +5,7 @@ import TaskctlVerif.Proofs.Imports
 Model: `Model/Imports.lean`.  All theorems hold for **every** import structure on any number of files
 — self-imports, mutual imports, repeated imports, diamonds.  The merge itself (`mergo` with
 override + append-slice: third-party) is abstracted to the list of contributing files; directory
-imports and the global/project union are covered by the correspondence run only (the latter's
+imports reduce to file imports (`C17_dir_reduces`); the global/project union is covered by the correspondence run only (the latter's
 variables part is `Vars.C10_global_reaches_tasks`).
 -/
 namespace Imports
@@ -72,6 +72,112 @@ theorem C17_unreachable_harmless (fs : FS) (n r : Nat) (hc : Closed fs n) (hr : 
     obtain ⟨x, hx, hbad⟩ := (C17_broken_fails_iff fs n r hc hr).mp hres
     exact absurd (hok x hx) hbad
   | ok vis c => exact ⟨vis, c, rfl⟩
+
+/-! ## Directory imports reduce to file imports -/
+
+theorem loadList_append (ld : List Nat → Nat → Res) (xs ys : List Nat) : ∀ vis,
+    loadList ld vis (xs ++ ys) =
+      match loadList ld vis xs with
+      | .ok vis' c =>
+        match loadList ld vis' ys with
+        | .ok vis'' c' => .ok vis'' (c ++ c')
+        | r => r
+      | r => r := by
+  induction xs with
+  | nil =>
+    intro vis
+    simp only [List.nil_append, loadList]
+    cases loadList ld vis ys <;> simp
+  | cons x xs ih =>
+    intro vis
+    simp only [List.cons_append, loadList]
+    split
+    · exact ih vis
+    · cases hld : ld vis x with
+      | outOfFuel => rfl
+      | err => rfl
+      | ok v1 c1 =>
+        simp only []
+        rw [ih v1]
+        cases loadList ld v1 xs with
+        | outOfFuel => rfl
+        | err => rfl
+        | ok v2 c2 =>
+          simp only []
+          cases loadList ld v2 ys with
+          | outOfFuel => rfl
+          | err => rfl
+          | ok v3 c3 => simp [List.append_assoc]
+
+theorem loadDirD_eq (ld : List Nat → Nat → Res) (fs : List Nat) : ∀ vis,
+    loadDirD ld vis fs = loadList ld vis fs := by
+  induction fs with
+  | nil => intro vis; rfl
+  | cons v rest ih =>
+    intro vis
+    simp only [loadDirD, loadList]
+    split
+    · exact ih vis
+    · cases ld vis v with
+      | outOfFuel => rfl
+      | err => rfl
+      | ok v1 c1 => simp only []; rw [ih v1]
+
+theorem loadListD_eq (ld : List Nat → Nat → Res) (es : List Entry) : ∀ vis,
+    loadListD ld vis es = loadList ld vis (expand es) := by
+  induction es with
+  | nil => intro vis; rfl
+  | cons e rest ih =>
+    intro vis
+    cases e with
+    | file v =>
+      simp only [loadListD, expand, loadList]
+      split
+      · exact ih vis
+      · cases ld vis v with
+        | outOfFuel => rfl
+        | err => rfl
+        | ok v1 c1 => simp only []; rw [ih v1]
+    | dir fs =>
+      simp only [loadListD, expand]
+      rw [loadList_append, loadDirD_eq]
+      cases loadList ld vis fs with
+      | outOfFuel => rfl
+      | err => rfl
+      | ok v1 c1 =>
+        simp only []
+        rw [ih v1]
+        cases loadList ld v1 (expand rest) <;> rfl
+
+/-- **directory imports**: loading a tree in which files import files *and directories* gives, for
+every fuel, visited set and file, exactly what loading the same tree with each directory import
+written out as the (sorted) list of its `*.yaml` files gives.  Every theorem of this file therefore
+speaks about directory imports as well: termination on any structure, the closure taken once,
+failure exactly when a file of the closure - reached through a directory or not - is broken. -/
+theorem C17_dir_reduces (fs : FSD) : ∀ (fuel : Nat) (vis : List Nat) (f : Nat),
+    loadD fs fuel vis f = load fs.flat fuel vis f := by
+  intro fuel
+  induction fuel with
+  | zero => intro vis f; rfl
+  | succ k ih =>
+    intro vis f
+    simp only [loadD, load, FSD.flat]
+    cases fs.status f with
+    | ok =>
+      simp only []
+      rw [loadListD_eq]
+      have : loadD fs k = load fs.flat k := by funext v x; exact ih v x
+      rw [this]
+      rfl
+    | missing => rfl
+    | unparsable => rfl
+
+-- file 0 imports the directory holding 1 and 2 and then file 2 again; 2 imports 0: each taken once
+example : loadD { entries := fun f => if f = 0 then [.dir [1, 2], .file 2] else if f = 2 then [.file 0] else [],
+                  status := fun _ => .ok } 4 [] 0 = .ok [2, 1, 0] [0, 1, 2] := by decide
+-- a dangling entry in the imported directory makes loading fail
+example : loadD { entries := fun f => if f = 0 then [.dir [1, 2]] else [],
+                  status := fun f => if f = 2 then .missing else .ok } 4 [] 0 = .err := by decide
 
 /-! ## Non-vacuity: three files importing each other in a cycle with a self-import and a repeat -/
 def exFS : FS := { imports := fun f => if f = 0 then [1, 1, 0] else if f = 1 then [2] else if f = 2 then [0, 1] else [],
